@@ -22,6 +22,7 @@ import (
 
 	"go4.org/jsonconfig"
 	"perkeep.org/pkg/blobserver"
+	"perkeep.org/pkg/blobserver/diskpacked"
 	_ "perkeep.org/pkg/blobserver/localdisk"
 
 	"verif.local/harness/ev"
@@ -105,22 +106,30 @@ func killChild() {
 	if probe {
 		// traced run only: every probe blob is received and then removed, so that the system-call
 		// trace shows how a remove of a present blob changes its pack, for a spread of body sizes
+		// ... and a second time with hole punching refused (journal line "N nopunch"): the zero-fill
+		// fallback of a remove is other code, its order of pack writes is observed separately
 		i := maxOps
-		for b := nUni; b < len(w.Uni); b++ {
-			for _, recv := range []bool{true, false} {
-				if recv {
-					fmt.Fprintf(jf, "B %d R %d\n", i, b)
-					_, err = blobserver.Receive(ctx, s, w.Uni[b].Ref, bytes.NewReader(w.Uni[b].Data))
-				} else {
-					fmt.Fprintf(jf, "B %d D %d\n", i, b)
-					err = s.RemoveBlobs(ctx, []blobRef{w.Uni[b].Ref})
+		for round := 0; round < 2; round++ {
+			if round == 1 {
+				diskpacked.VerifSetNoPunch(true)
+				fmt.Fprintf(jf, "N nopunch\n")
+			}
+			for b := nUni; b < len(w.Uni); b++ {
+				for _, recv := range []bool{true, false} {
+					if recv {
+						fmt.Fprintf(jf, "B %d R %d\n", i, b)
+						_, err = blobserver.Receive(ctx, s, w.Uni[b].Ref, bytes.NewReader(w.Uni[b].Data))
+					} else {
+						fmt.Fprintf(jf, "B %d D %d\n", i, b)
+						err = s.RemoveBlobs(ctx, []blobRef{w.Uni[b].Ref})
+					}
+					if err != nil {
+						fmt.Fprintf(jf, "E %d %s\n", i, strings.ReplaceAll(err.Error(), "\n", " "))
+						os.Exit(6)
+					}
+					fmt.Fprintf(jf, "A %d\n", i)
+					i++
 				}
-				if err != nil {
-					fmt.Fprintf(jf, "E %d %s\n", i, strings.ReplaceAll(err.Error(), "\n", " "))
-					os.Exit(6)
-				}
-				fmt.Fprintf(jf, "A %d\n", i)
-				i++
 			}
 		}
 	}
